@@ -11,7 +11,7 @@ PPTECH = 'MIR symbolic execution (own interpreter, python+z3) of the real prepro
 CHECKS = {
  'C03': dict(
     category='model_checking',
-    text='(a) map core: the real PreprocessedText::{new,push,merge,origin} and Range::{new,offset,eq,cmp} MIR executed on symbolic push sequences (lengths 0..3, source offsets, with/without origin, one nested merge) and a symbolic probe position, BTreeMap modelled by std\'s B-tree algorithm calling the real comparator; every model that violates the oracle (segment containing pos, src+(pos-base)) or reaches a panic is replayed on the real BTreeMap. (b) emission sites: preprocess_str MIR on texts exercising every push site (kept directives, conditionals with trailing text, macro usages with empty/non-empty expansion, includes, non-ASCII) with define table and strip_comments symbolic; origins of every output byte compared with the provenance computed by the reference. Bounded: <=7 segments with empty ones, <=30 non-empty, one merge level, the listed texts.',
+    text='(a) map core: the real PreprocessedText::{new,push,merge,origin} and Range::{new,offset,eq,cmp} MIR executed on symbolic push sequences (lengths 0..3, source offsets, with/without origin, merges nested up to 3 levels quick, 4 thorough) and a symbolic probe position, BTreeMap modelled by std\'s B-tree algorithm calling the real comparator; every model that violates the oracle (segment containing pos, src+(pos-base)) or reaches a panic is replayed on the real BTreeMap. (b) emission sites: preprocess_str MIR on texts exercising every push site (kept directives, conditionals with trailing text, macro usages with empty/non-empty expansion, includes, non-ASCII) with define table and strip_comments symbolic; origins of every output byte compared with the provenance computed by the reference. Bounded: <=7 segments with empty ones, <=30 non-empty, <=4 merge levels, the listed texts.',
     note=PPNOTE, technique=PPTECH, design='4/C03'),
  'C04': dict(
     category='model_checking',
